@@ -82,6 +82,24 @@ func GenName(t *rapid.T, label string, maxLen int) string {
 	return sanitizeName(name)
 }
 
+// MixCase upper-cases a pseudo-random subset of the letters of a name in one
+// case out of three (host names are case-insensitive but must be relayed and
+// reported as sent).
+func MixCase(t *rapid.T, label, name string) string {
+	if rapid.IntRange(0, 2).Draw(t, label+"_mixcase") != 0 {
+		return name
+	}
+	seed := rapid.Uint64().Draw(t, label+"_caseseed") | 1
+	b := []byte(name)
+	for i := range b {
+		seed = seed*6364136223846793005 + 1442695040888963407
+		if b[i] >= 'a' && b[i] <= 'z' && (seed>>40)&1 == 1 {
+			b[i] -= 'a' - 'A'
+		}
+	}
+	return string(b)
+}
+
 // sanitizeName makes every label start and end with a letter or digit and
 // makes sure the name cannot be mistaken for an IP address literal.
 func sanitizeName(name string) string {
@@ -288,7 +306,7 @@ func GenTuple(t *rapid.T, o TupleOpts) *Tuple {
 	tp := &Tuple{PublicName: o.PublicName}
 	tp.InnerName = o.InnerName
 	if tp.InnerName == "" {
-		tp.InnerName = GenName(t, "inner_name", 253)
+		tp.InnerName = MixCase(t, "inner_name", GenName(t, "inner_name", 253))
 	}
 	if o.FixALPN {
 		tp.InnerALPN = o.InnerALPN
@@ -490,7 +508,7 @@ func GenPlain(t *rapid.T, label string, o PlainOpts) *Hello {
 	if o.ForceSNI != "" {
 		exts = append(exts, Ext{ExtSNI, SNIExt(o.ForceSNI)})
 	} else if rapid.IntRange(0, 5).Draw(t, label+"_sni") != 0 {
-		exts = append(exts, Ext{ExtSNI, SNIExt(GenName(t, label+"_name", 253))})
+		exts = append(exts, Ext{ExtSNI, SNIExt(MixCase(t, label+"_name", GenName(t, label+"_name", 253)))})
 	}
 	if a := GenALPN(t, label+"_alpn"); len(a) > 0 {
 		exts = append(exts, Ext{ExtALPN, ALPNExt(a)})
